@@ -286,7 +286,8 @@ func c06MutJudge(name, sizer string) (got, want string) {
 //   - have a Size() or ProtoSize() method that means something else than the encoded length,
 //   - MERGE in Unmarshal instead of overwriting (the documented golang/protobuf contract: proto.Unmarshal
 //     resets the target first, Unmarshal methods append),
-//   - encode to nothing at all.
+//   - encode to nothing at all,
+//   - be used BY VALUE (value receivers; its zero value is a message like any other).
 // For each: Marshal's count = bytes written = Size = HeaderSize + len(own encoding), the wire is header + own
 // encoding, and Unmarshal into a fresh and into a DIRTY reused target yields the source (compared through the
 // type's own encoding and reflect.DeepEqual), with a small frame behind it intact.
@@ -349,6 +350,21 @@ func (l *c06Sized) String() string { return fmt.Sprintf("%x", l.Data) }
 func (l *c06Sized) ProtoMessage()  {}
 func (l *c06Sized) ProtoSize() int { return 1000 + len(l.Data) }
 
+// c06PtV is a message used BY VALUE: every method but Unmarshal has a value receiver, so c06PtV{...} itself
+// (not a pointer to it) is a proto.Message - and its zero value is a perfectly good message.
+type c06PtV struct{ X, Y int32 }
+
+func (p c06PtV) Marshal() ([]byte, error) { q := c06Pt(p); return q.Marshal() }
+func (p *c06PtV) Unmarshal(b []byte) error {
+	var q c06Pt
+	q.Unmarshal(b)
+	*p = c06PtV(q)
+	return nil
+}
+func (p c06PtV) Reset()         {}
+func (p c06PtV) String() string { return fmt.Sprint(p.X, ",", p.Y) }
+func (p c06PtV) ProtoMessage()  {}
+
 type c06OwnCodec struct {
 	Name  string
 	Src   func() proto.Message // the message to write
@@ -374,6 +390,8 @@ func c06OwnCodecList() []c06OwnCodec {
 			}
 			return b
 		}, func() proto.Message { return &c06Batch{[]string{"x"}} }, enc},
+		{"PtV(0,0) passed by value (the zero value)", func() proto.Message { return c06PtV{} }, func() proto.Message { return &c06PtV{5, 6} }, enc},
+		{"PtV(3,-4) passed by value", func() proto.Message { return c06PtV{3, -4} }, func() proto.Message { return &c06PtV{5, 6} }, enc},
 		{"Sized(5 bytes)", func() proto.Message { return &c06Sized{[]byte("hello")} }, func() proto.Message { return &c06Sized{[]byte("previous content")} }, enc},
 		{"Sized(empty)", func() proto.Message { return &c06Sized{} }, func() proto.Message { return &c06Sized{[]byte("previous")} }, enc},
 		{"Sized(5000 bytes)", func() proto.Message { return &c06Sized{c06Payload(5000)} }, func() proto.Message { return &c06Sized{[]byte("p")} }, enc},
@@ -414,6 +432,8 @@ func c06OwnCodecJudge(name string, chunk int) (got, want string) {
 		var t proto.Message
 		if dirty {
 			t = e.Dirty()
+		} else if _, byValue := e.Src().(c06PtV); byValue {
+			t = &c06PtV{}
 		} else {
 			t = e.Src()
 			t.Reset()
@@ -433,4 +453,9 @@ func c06OwnCodecJudge(name string, chunk int) (got, want string) {
 }
 
 // normEmpty renders a message for comparison: nil and empty slices are the same message.
-func normEmpty(m proto.Message) string { return fmt.Sprintf("%T %s", m, m.String()) }
+func normEmpty(m proto.Message) string {
+	if p, ok := m.(*c06PtV); ok {
+		m = *p // a value-typed message reads back into a pointer to it
+	}
+	return fmt.Sprintf("%T %s", m, m.String())
+}
